@@ -5,6 +5,8 @@
 import PyTreesModel.Names
 import PyTreesGen.C15
 
+set_option linter.unusedSimpArgs false
+
 namespace Py
 
 theorem startswith_sep (s : List Char) : startswith s ['/'] = decide (s.head? = some '/') := by
@@ -33,18 +35,20 @@ theorem sliceFrom_length (s p : List Char) : sliceFrom s (p.length : Int) = s.dr
 
 end Py
 
+/-! The two bridge proofs are written to survive harmless restructurings of the Python functions: everything is
+reduced to the four atoms "key is absolute", "namespace ends with the separator", "namespace + '/' is a prefix of the
+key", "namespace is a prefix of the key", and every combination is closed by `simp`. -/
+
 theorem C15_gen_absolute_name (ns key : List Char) : Gen.absolute_name ns key = Names.absName ns key := by
   unfold Gen.absolute_name Names.absName Names.norm
-  simp only [Py.startswith_sep, Py.endswith_sep, Py.strip_sep, Names.sep]
-  by_cases hk : key.head? = some '/' <;> by_cases hn : ns.getLast? = some '/' <;> simp [hk, hn]
+  (try simp only [Py.startswith_sep, Py.endswith_sep, Py.strip_sep])
+  by_cases hk : key.head? = some '/' <;> by_cases hn : ns.getLast? = some '/' <;>
+    simp [Py.startswith_sep, Py.endswith_sep, Py.strip_sep, Names.sep, hk, hn]
 
 theorem C15_gen_relative_name (ns key : List Char) :
     Gen.relative_name ns key = (match Names.relName ns key with | some r => .ok r | none => .error .keyError) := by
   unfold Gen.relative_name Names.relName Names.norm
-  rw [Py.startswith_sep key]
-  simp only [Py.endswith_sep, Names.sep, Py.sliceFrom_length]
+  (try simp only [Py.startswith_sep, Py.endswith_sep, Py.sliceFrom_length])
   by_cases hk : key.head? = some '/' <;> by_cases hn : ns.getLast? = some '/' <;>
-    simp only [hk, hn, decide_true, decide_false, Bool.not_true, Bool.not_false, if_true, if_false, ne_eq,
-      not_true_eq_false, not_false_eq_true, Bool.false_eq_true, Py.startswith]
-  · by_cases hp : ns.isPrefixOf key = true <;> simp [hp]
-  · by_cases hp : (ns ++ ['/']).isPrefixOf key = true <;> simp [hp]
+  by_cases hp1 : (ns ++ ['/']).isPrefixOf key = true <;> by_cases hp2 : ns.isPrefixOf key = true <;>
+    simp [Py.startswith, Names.sep, hk, hn, hp1, hp2]
